@@ -674,6 +674,10 @@ func (l *Lowerer) builtin(name string, ce *ast.CallExpr) ([]*Term, []types.Type)
 			}
 			return []*Term{r}, []types.Type{tInt}
 		case *types.Chan:
+			if name == "cap" {
+				cv := l.heapVar("F.$chan.cap", "Int")
+				return []*Term{Select(cv, v)}, []types.Type{tInt}
+			}
 			if l.chanLenTracked {
 				// A-chanlen: the length of a channel does not change between two reads that no call and no channel
 				// operation of this function separates (the pseudo field is havocked at every call, send, receive,
@@ -811,10 +815,17 @@ func (l *Lowerer) makeCall(ce *ast.CallExpr) ([]*Term, []types.Type) {
 		l.assign(card.Name, card.Sort, Store(card, r, IntLit(0)))
 		return []*Term{r}, []types.Type{typ}
 	case *types.Chan:
-		for _, a := range ce.Args[1:] {
-			l.tr(a)
+		capT := IntLit(0)
+		for i, a := range ce.Args[1:] {
+			t, _ := l.tr(a)
+			if i == 0 {
+				capT = t
+			}
 		}
 		r := l.alloc()
+		// the capacity of a channel is fixed when it is made (ghost field read by cap(ch))
+		cv := l.heapVar("F.$chan.cap", "Int")
+		l.assign(cv.Name, cv.Sort, Store(cv, r, capT))
 		return []*Term{r}, []types.Type{typ}
 	}
 	l.unsupported(ce, "make")
